@@ -478,6 +478,7 @@ theorem inlTok_text (x : Inl) (h : fmtOk x) : toksText [inlTok x] = inlText x :=
   | esc c => simp [inlTok, toksText, inlText]
   | sp => simp [inlTok, toksText, inlText]
   | nl => simp [inlTok, toksText, inlText]
+  | escnl => simp [inlTok, toksText, inlText]
   | emph s => simp [inlTok, toksText, inlText, nodesText, nodeText, nodeText_textNode]
   | strong s => simp [inlTok, toksText, inlText, nodesText, nodeText, nodeText_textNode]
   | literal s => simp [inlTok, toksText, inlText, nodesText, nodeText, nodeText_textNode]
